@@ -17,7 +17,7 @@ R9 a new Link type-checks the elements of `interfaces` (Interface objects only) 
 """
 import ast
 
-from ..normalize import branch_values, Unknown, inline, local_env, expand, canon, ctext, conjuncts, eval_test, value_under
+from ..normalize import branch_values, Unknown, inline, local_env, expand, canon, ctext, conjuncts, eval_test, value_under, _enclosing
 import re
 
 from ..core import AnalysisError, norm, loc, walk_no_nested, attr_chain, call_name, kwarg, func_params
@@ -37,6 +37,63 @@ TYPE_ENUMS = {
 DEEP_READERS = {'build_deep_node_sliver': 'NetworkNode', 'build_deep_component_sliver': 'Component',
                 'build_deep_ns_sliver': 'NetworkService', 'build_deep_interface_sliver': 'ConnectionPoint'}
 MUTATOR_NAMES = {'__setitem__', '__delitem__', 'pop', 'popitem', 'clear', 'update', 'setdefault', '__ior__'}
+
+
+def check_name_keyed_views(prog, rep, rule, only=None):
+    """A topology-wide view that is a dictionary keyed by element name lists every element only if that name is unique among
+    ALL the elements it enumerates. For each ``Topology._list_*`` that fills ``ret[<element>.name]`` from a graph-wide listing of
+    one class, the graph writer of that class must refuse a name already used by any element of the class - a uniqueness test
+    that is made only for some of them (for instance only for services without a parent) lets two elements share a key, and
+    the view - and everything that walks it: validation, the attribute collectors - silently drops one. Shared with C10, C11."""
+    topo = prog.cls('fim.user.topology:Topology')
+    apg = prog.cls('fim.graph.abc_property_graph:ABCPropertyGraph')
+    n = 0
+    for mname, fn in sorted(topo.methods.items()):
+        if not mname.startswith('_list_'):
+            continue
+        listing = [c for c in ast.walk(fn) if isinstance(c, ast.Call) and call_name(c).startswith('get_all_') and not c.args and not c.keywords]
+        keyed = [a for a in ast.walk(fn) if isinstance(a, ast.Assign) and isinstance(a.targets[0], ast.Subscript) and
+                 isinstance(a.targets[0].slice, ast.Attribute) and a.targets[0].slice.attr == 'name'] + \
+                [a for a in ast.walk(fn) if isinstance(a, ast.DictComp) and isinstance(a.key, ast.Attribute) and a.key.attr == 'name']
+        if not listing or not keyed:
+            continue
+        lf = apg.find_method(call_name(listing[0]))[1]
+        labels = [x.attr for x in ast.walk(lf) if isinstance(x, ast.Attribute) and x.attr.startswith('CLASS_')] if lf is not None else []
+        if len(labels) != 1:
+            continue
+        label = labels[0]
+        if only is not None and label not in only:
+            continue
+        writers = [w for wn, w in apg.methods.items() if wn.startswith('add_') and wn.endswith('_sliver') and
+                   any(isinstance(c, ast.Call) and call_name(c) == 'add_node' and any(isinstance(x, ast.Attribute) and x.attr == label for x in ast.walk(c)) for c in ast.walk(w))]
+        for w in writers:
+            wi = inline(prog, apg, w)
+            uniq = [c for c in ast.walk(wi) if isinstance(c, ast.Call) and call_name(c) == 'check_node_unique' and
+                    any(isinstance(x, ast.Attribute) and x.attr == label for x in ast.walk(c))]
+            n += 1
+            restricted = None
+            for u in uniq:
+                # the test the call sits in, and what else that test asks for
+                p_ = getattr(u, '_parent', None)
+                while p_ is not None and not isinstance(p_, (ast.If, ast.Assert)):
+                    p_ = getattr(p_, '_parent', None)
+                others = []
+                if p_ is not None:
+                    _, outer = _enclosing(p_, wi)
+                    for cj in conjuncts(canon(p_.test)) + [cj2 for c_ in outer if getattr(c_, '_guard', None) != 'Raise' for cj2 in conjuncts(canon(c_))]:
+                        if not any(x is u for x in ast.walk(cj)) and any(isinstance(x, ast.Name) and 'parent' in x.id for x in ast.walk(cj)):
+                            others.append(cj)
+                restricted = others
+            rep.instance(rule, f'Topology.{mname}: keyed by name over every {label[6:]}; {w.name} tests the name '
+                               f'{"never" if not uniq else ("only when " + norm(restricted[0], 50)) if restricted else "for every element"}')
+            if not uniq or restricted:
+                rep.violation(rule, loc(apg.module, w), f'ABCPropertyGraph.{w.name}', f'name uniqueness of {label[6:]} elements tested {"never" if not uniq else "only when " + norm(restricted[0], 50)}',
+                              f'Topology.{mname} returns a dictionary keyed by name over every {label[6:]} of the model, but {w.name} refuses a name that is '
+                              f'taken {"never" if not uniq else "only when " + norm(restricted[0], 50)}: two elements can carry the same name (a slice-wide service named '
+                              f'like the service a node or component generates, or the generated services of "aa-bb"+"cc" and "aa"+"bb-cc"), the view lists one of '
+                              f'them, and validation and the attribute / log collectors, which walk the view, never see the other')
+    if n == 0:
+        raise AnalysisError('no name-keyed topology view recognised')
 
 
 def run(prog, rep):
@@ -216,7 +273,9 @@ def run(prog, rep):
                     if any(scope in ast.unparse(expand(i, env4)) for _, i in b_.gens):
                         # filled by a loop over the scope's listing: complete only when nothing is filtered out
                         ok_scope = not b_.conds
-            if ok_scope and any(isinstance(x, ast.comprehension) and x.ifs for x in ast.walk(rhs)):
+            rhs_x = expand(rhs, local_env(fn))
+            if ok_scope and (any(isinstance(x, ast.comprehension) and x.ifs for x in ast.walk(rhs_x)) or
+                             any(isinstance(x, ast.Call) and isinstance(x.func, ast.Name) and x.func.id == 'filter' for x in ast.walk(rhs_x))):
                 ok_scope = False
             if ok_scope and ast.unparse(tcan.left) == 'name':
                 good.append(t)
@@ -362,6 +421,8 @@ def run(prog, rep):
     rep.rule('R14', 'a created element is recorded for the rollback before the next step that can fail (no peerless port is left behind)', floor=2)
     from .c09 import check_recorded_before_next_step
     check_recorded_before_next_step(prog, rep, 'R14')
+    rep.rule('R16', 'a topology-wide view keyed by name is backed by a name-uniqueness test over all the elements it lists', floor=3)
+    check_name_keyed_views(prog, rep, 'R16')
     rep.rule('R15', 'unpeer removes ports only after establishing that the two services peer (no port is left without a peer)', floor=2)
     from .c08 import check_unpeer_shape
     check_unpeer_shape(prog, rep, 'R15')
@@ -557,6 +618,9 @@ TP = 'fim/user/topology.py'
 UNS = 'fim/user/network_service.py'
 AP = 'fim/graph/abc_property_graph.py'
 MUTANTS = [
+    {'name': 'interface-name-guard-reads-handle-cache', 'file': 'fim/user/network_service.py', 'rule': 'R4',
+     'find': "        model_ids = self.topo.graph_model.get_all_ns_or_link_connection_points(link_id=self.node_id)\n        all_names = [self.topo.graph_model.get_node_properties(node_id=i)[1][ABCPropertyGraph.PROP_NAME]\n                     for i in model_ids]\n",
+     'replace': "        all_names = [n.name for n in self._interfaces]\n"},
     {'name': 'rules-lose-service-type', 'file': RULES, 'rule': 'R1', 'find': '\\"L2STS\\", \\"L2Multisite\\", ', 'replace': '\\"L2STS\\", '},
     {'name': 'enum-member-added-without-rule', 'file': 'fim/slivers/interface_info.py', 'rule': 'R1',
      'find': '    SubInterface = enum.auto()\n', 'replace': '    SubInterface = enum.auto()\n    LoopbackPort = enum.auto()\n'},
